@@ -286,6 +286,9 @@ func oracleC09(op string, args []string) string {
 	if op == "accs" {
 		return oracleAccS(args)
 	}
+	if op == "accl" {
+		return oracleAccL(args)
+	}
 	lay := loadLayout()
 	if len(args) != 4 {
 		return skip
@@ -446,6 +449,7 @@ func genAcc(g *Gen, w *bufio.Writer) {
 	fs := factsFromLayout()
 	per := g.N
 	genAccDNN(g, w, per*10)
+	genAccLen(g, w, per)
 	for _, f := range fs {
 		size := 1
 		switch f.Store {
